@@ -241,8 +241,9 @@ class ZeroDurationTask(Task):
 
     def __init__(self, **data) -> None:
         super().__init__(**data)
-        # add an assertion: end = start because the duration is zero
-        self.append_z3_assertion(self._start == self._end)
+        # end = start because the duration is zero; like other tasks, the start is
+        # non negative and an optional task that is not scheduled is moved to the past
+        self.set_assertions([self._start == self._end, self._start >= 0])
 
 
 class FixedDurationTask(Task):
